@@ -933,7 +933,7 @@ func (g *G) argument(depth int) *Node {
 	if g.R.Chance(1, 8) {
 		return &Node{Kind: "Argument", Kids: []Kid{one("Expr", e)}, Parts: parts(t("..."), e)}
 	}
-	if g.R.Chance(1, 12) && !g.php7() {
+	if g.R.Chance(1, 12) && g.O.Fam == 5 && !g.O.Common { // call-time pass-by-reference: PHP 5 grammar only
 		v := g.simpleVar()
 		return &Node{Kind: "Argument", Kids: []Kid{one("Expr", v)}, Parts: parts(t("&"), v)}
 	}
@@ -959,7 +959,11 @@ func (g *G) newExpr(depth int) *Node {
 		return &Node{Kind: "ExprNew", Kids: []Kid{one("Class", cls)}, Parts: parts(g.kw("new"), cls), Prec: precNew, Prefix: true, Flags: FPhp7Only}
 	}
 	var cls *Node
-	switch g.R.Intn(6) {
+	ck := g.R.Intn(6)
+	if ck == 5 && g.O.Common {
+		ck = 0 // class-reference chains have recorded PHP5/PHP7 span divergences: not part of the common subset
+	}
+	switch ck {
 	case 0:
 		cls = g.simpleVar()
 	case 5:
